@@ -1,0 +1,22 @@
+//go:build verif
+
+package wallet
+
+import "github.com/virel-project/virel-blockchain/v3/bitcrypto"
+
+// Verification hooks (build tag verif): add-only access to unexported helpers of package wallet. No logic is added.
+
+// VerifNewMnemonic is newMnemonic: entropy -> (mnemonic, private key), the derivation used by CreateWallet.
+func VerifNewMnemonic(entropy []byte) (string, bitcrypto.Privkey) { return newMnemonic(entropy) }
+
+// VerifDecodeMnemonic is decodeMnemonic: mnemonic -> private key, the derivation used by CreateWalletFromMnemonic.
+func VerifDecodeMnemonic(mnemonic string) (bitcrypto.Privkey, error) { return decodeMnemonic(mnemonic) }
+
+// VerifPrivateKey returns the private key held by the wallet.
+func (w *Wallet) VerifPrivateKey() bitcrypto.Privkey { return w.dbInfo.PrivateKey }
+
+// VerifSaveDatabase is saveDatabase on the wallet's own data with explicit Argon2 cost parameters
+// (CreateWallet only offers two fixed parameter sets).
+func (w *Wallet) VerifSaveDatabase(pass string, time, mem uint32) ([]byte, error) {
+	return saveDatabase(w.dbInfo, pass, time, mem)
+}
